@@ -90,6 +90,7 @@ type Violation struct {
 	Nondet  map[string]string `json:"nondet"` // name -> hex value
 	Order   []string          `json:"order"`
 	Stack   string            `json:"stack,omitempty"`
+	Obs     []obsRec          `json:"observations,omitempty"`
 }
 
 type intrinsicFn func(p *Path, fn *ssa.Function, args []Value) (Value, bool)
@@ -319,6 +320,7 @@ func (r *Run) recordViolation(p *Path, label, kind, site string) {
 	if kind == "panic" {
 		v.Stack = p.stack()
 	}
+	v.Obs = append(v.Obs, p.obs...)
 	for _, e := range r.violations {
 		if e.Label == v.Label {
 			return // one witness per label
